@@ -311,6 +311,11 @@ def bounded_index(n, fam, seen=None):
         return "literal %d" % v
     if F.is_call(n, *LEN_CALLS):
         return "len() of an in-memory sequence"
+    # `<iter>.find(..)?.0` / `<iter>.next()?.0`: the index component of a char_indices()/enumerate() item
+    if n.get("k") == "Field" and n.get("name") == "0" and FL.try_operand(F.strip(n["e"])) is not None:
+        r_ = payload_is_index(n["e"], [("field", "0")], fam, seen)
+        if r_:
+            return r_
     # an if / match / block value: every branch that yields a value yields a bounded index (diverging branches yield nothing)
     k = n.get("k")
     if k in ("If", "Match", "Block") and len(seen) < 12:
